@@ -100,11 +100,11 @@ def run(chk):
         inits = ['none', 'P1', 'PW', 'PH']
         # all histories of length <= 2 over the alphabet, from every initial program
         for init in inits:
-            for n in (1, 2):
+            for n in ((1, 2, 3, 4) if thorough else (1, 2)):
                 for h in itertools.product(OPS, repeat=n):
                     hists.append((init, list(h)))
         # random longer histories
-        for _ in range(6000 if thorough else 1200):
+        for _ in range(20000 if thorough else 1200):
             n = 3 + rng.below(10)
             hists.append((rng.choice(inits), [rng.choice(OPS) for _ in range(n)]))
         kinds = ['mbuff', 'raw', 'nodata', 'fixed']
@@ -149,10 +149,10 @@ def run(chk):
                                'meaning': 'a set_program call that failed changed the behaviour of the fixed-metadata VM'})
         chk.cov['evaluations'] = len(lines) + 3
         chk.cov['distinct_nontrivial'] = len({l for l in lines})
-        chk.cov['rule'] = ('all histories of length <= 2 over a 16-operation alphabet from 4 initial programs (exhaustive), plus seeded random '
+        chk.cov['rule'] = ('all histories of length <= %d over' % (4 if thorough else 2) + ' a 16-operation alphabet from 4 initial programs (exhaustive), plus seeded random '
                            'histories of length 3..12 over the 4 VM kinds; verifier menu {default, accept-all, reject-all, ends-in-exit}, program menu '
                            '{valid x2, valid only for other verifiers x2, needs a helper}; every answer of every call is compared; distinct = distinct history')
-        chk.cov['input_distribution'] = {'histories': len(lines), 'exhaustive_up_to_length': 2}
+        chk.cov['input_distribution'] = {'histories': len(lines), 'exhaustive_up_to_length': 4 if thorough else 2}
         chk.cov['samples'] = [{'request': lines[i][:300], 'answer': answers[i][:120]} for i in (5, 1000, len(lines) - 1)]
     vlib.report_broken(chk, res, found)
     chk.cov['trusted_base'] = ['Coq 8.16.1 kernel + vm_compute', 'no axioms', 'theories/VmApi.v is a hand-written model of lib.rs: tie is the history correspondence only (tie B)',
